@@ -8,6 +8,15 @@ use std::hash::{Hash, Hasher};
 /// Token identifying an element instance in models: (id, serial); serial 0 = type has none.
 pub type Tok = (u32, u32);
 
+/// Holder of a sized borrowed form.
+pub struct Own<T>(pub T);
+impl<T> std::ops::Deref for Own<T> {
+    type Target = T;
+    fn deref(&self) -> &T {
+        &self.0
+    }
+}
+
 /// `entry_ref` entry of a simulator map.
 pub type ERef<'a, 'b, K, V> = hashbrown::hash_map::EntryRef<'a, 'b, K, <K as KeyT>::View, V, crate::plan::SimBuildHasher, crate::alloc::SimAlloc>;
 
@@ -46,13 +55,20 @@ pub trait KeyT: Hash + Eq + Clone + Send + Sync + 'static + for<'a> From<&'a <Se
     const HAS_DROP: bool;
     /// Largest usable id + 1.
     const UNIVERSE: u32;
-    type View: Hash + hashbrown::Equivalent<Self> + Send + Sync;
+    /// The borrowed form lookups are made with (may be unsized, like `str` for `String`).
+    type View: ?Sized + Hash + hashbrown::Equivalent<Self> + Sync;
+    /// What `view()` hands out: something that derefs to the borrowed form.
+    type Holder: std::ops::Deref<Target = Self::View>;
+    /// The number the hash plan sees for this key id (the id itself unless the key hashes as a byte string).
+    fn plan_id(id: u32) -> u32 {
+        id
+    }
     /// id of a borrowed view
     fn view_id(v: &Self::View) -> u32;
     fn make(id: u32) -> Self;
     fn id(&self) -> u32;
     fn serial(&self) -> u32;
-    fn view(id: u32) -> Self::View;
+    fn view(id: u32) -> Self::Holder;
     fn tok(&self) -> Tok {
         (self.id(), self.serial())
     }
@@ -161,6 +177,7 @@ impl KeyT for Key8 {
     const HAS_DROP: bool = true;
     const UNIVERSE: u32 = u32::MAX;
     type View = View8;
+    type Holder = Own<View8>;
     fn make(id: u32) -> Key8 {
         let serial = sim().new_serial(id);
         Key8 { id, serial }
@@ -171,8 +188,8 @@ impl KeyT for Key8 {
     fn serial(&self) -> u32 {
         self.serial
     }
-    fn view(id: u32) -> View8 {
-        View8(id)
+    fn view(id: u32) -> Own<View8> {
+        Own(View8(id))
     }
     fn intact(&self) -> bool {
         live(self.serial, self.id)
@@ -396,6 +413,7 @@ impl KeyT for PodKey {
     const HAS_DROP: bool = false;
     const UNIVERSE: u32 = u32::MAX;
     type View = ViewPod;
+    type Holder = Own<ViewPod>;
     fn make(id: u32) -> PodKey {
         PodKey(id)
     }
@@ -405,8 +423,8 @@ impl KeyT for PodKey {
     fn serial(&self) -> u32 {
         0
     }
-    fn view(id: u32) -> ViewPod {
-        ViewPod(id)
+    fn view(id: u32) -> Own<ViewPod> {
+        Own(ViewPod(id))
     }
     fn intact(&self) -> bool {
         true
@@ -529,6 +547,7 @@ macro_rules! small_key {
             const HAS_DROP: bool = true;
             const UNIVERSE: u32 = $uni;
             type View = $view;
+            type Holder = Own<$view>;
             fn make(id: u32) -> $name {
                 sim().ms_create($ty, id);
                 $name(id as $int)
@@ -539,8 +558,8 @@ macro_rules! small_key {
             fn serial(&self) -> u32 {
                 0
             }
-            fn view(id: u32) -> $view {
-                $view(id)
+            fn view(id: u32) -> Own<$view> {
+                Own($view(id))
             }
             fn intact(&self) -> bool {
                 sim().multiset.get(&($ty, self.0 as u32)).copied().unwrap_or(0) > 0
@@ -602,6 +621,7 @@ impl KeyT for KeyZ {
     const HAS_DROP: bool = true;
     const UNIVERSE: u32 = 1;
     type View = ViewZ;
+    type Holder = Own<ViewZ>;
     fn view_id(_v: &ViewZ) -> u32 {
         0
     }
@@ -615,11 +635,125 @@ impl KeyT for KeyZ {
     fn serial(&self) -> u32 {
         0
     }
-    fn view(_id: u32) -> ViewZ {
-        ViewZ
+    fn view(_id: u32) -> Own<ViewZ> {
+        Own(ViewZ)
     }
     fn intact(&self) -> bool {
         true
+    }
+}
+
+// ------------------------------------------------------------------ KeyS: string-like key, borrowed form `[u8]` (unsized)
+/// 32 texts of 8 bytes; key id = text * 8 + (length - 1): the keys are the non-empty prefixes of the texts, so that
+/// borrowed forms of different keys can start at the same address and differ only in length (as `&s[..3]` and
+/// `&s[..6]` do for string keys).
+static TEXTS: [[u8; 8]; 32] = {
+    let mut t = [[0u8; 8]; 32];
+    let mut v = 0;
+    while v < 32 {
+        let mut j = 0;
+        while j < 8 {
+            t[v][j] = (v * 8 + j) as u8;
+            j += 1;
+        }
+        v += 1;
+    }
+    t
+};
+pub fn text_of(id: u32) -> &'static [u8] {
+    let id = id % 256;
+    &TEXTS[(id / 8) as usize][..(id % 8 + 1) as usize]
+}
+fn text_id(b: &[u8]) -> u32 {
+    (b[0] as u32 / 8) * 8 + b.len() as u32 - 1
+}
+#[derive(Debug)]
+pub struct KeyS {
+    pub id: u32,
+    pub serial: u32,
+}
+impl hashbrown::Equivalent<KeyS> for [u8] {
+    fn equivalent(&self, k: &KeyS) -> bool {
+        sim_eq(text_id(self), k.id)
+    }
+}
+impl Hash for KeyS {
+    fn hash<H: Hasher>(&self, h: &mut H) {
+        tick(Class::Hash);
+        // exactly as the borrowed form hashes (length prefix + bytes); `[u8]`'s own impl cannot count the callback
+        text_of(self.id).hash(h);
+    }
+}
+impl PartialEq for KeyS {
+    fn eq(&self, o: &KeyS) -> bool {
+        sim_eq(self.id, o.id)
+    }
+}
+impl Eq for KeyS {}
+impl Clone for KeyS {
+    fn clone(&self) -> KeyS {
+        tick(Class::Clone);
+        <KeyS as KeyT>::make(self.id)
+    }
+}
+impl Drop for KeyS {
+    fn drop(&mut self) {
+        sim().drop_serial(self.serial, self.id);
+        tick(Class::Drop);
+    }
+}
+impl From<&[u8]> for KeyS {
+    fn from(v: &[u8]) -> KeyS {
+        tick(Class::Into);
+        <KeyS as KeyT>::make(text_id(v))
+    }
+}
+// (no `Borrow<[u8]>`: with it the blanket `Equivalent` impl would compare bytes without the simulator seeing the call)
+impl KeyT for KeyS {
+    const NAME: &'static str = "KeyS";
+    const HAS_SERIAL: bool = true;
+    const HAS_DROP: bool = true;
+    const UNIVERSE: u32 = 256;
+    type View = [u8];
+    type Holder = &'static [u8];
+    fn plan_id(id: u32) -> u32 {
+        // what SimHasher folds from `[u8]::hash`: the length as usize bytes, then the bytes
+        let b = text_of(id);
+        let mut x = 0u32;
+        for &c in b.len().to_ne_bytes().iter().chain(b.iter()) {
+            x = x.wrapping_mul(31).wrapping_add(c as u32);
+        }
+        x
+    }
+    fn view_id(v: &[u8]) -> u32 {
+        text_id(v)
+    }
+    fn make(id: u32) -> KeyS {
+        let id = id % 256;
+        KeyS { id, serial: sim().new_serial(id) }
+    }
+    fn id(&self) -> u32 {
+        self.id
+    }
+    fn serial(&self) -> u32 {
+        self.serial
+    }
+    fn view(id: u32) -> &'static [u8] {
+        text_of(id)
+    }
+    fn intact(&self) -> bool {
+        live(self.serial, self.id)
+    }
+}
+impl serde::Serialize for KeyS {
+    fn serialize<S: serde::Serializer>(&self, s: S) -> Result<S::Ok, S::Error> {
+        s.serialize_u32(self.id)
+    }
+}
+impl<'de> serde::Deserialize<'de> for KeyS {
+    fn deserialize<D: serde::Deserializer<'de>>(d: D) -> Result<KeyS, D::Error> {
+        let id = u32::deserialize(d)?;
+        Ok(<KeyS as KeyT>::make(id))
     }
 }
 
@@ -695,6 +829,7 @@ impl KeyT for Key24 {
     const HAS_DROP: bool = true;
     const UNIVERSE: u32 = u32::MAX;
     type View = View24;
+    type Holder = Own<View24>;
     fn make(id: u32) -> Key24 {
         let serial = sim().new_serial(id);
         Key24 { id, serial, pad: [pad_word(serial, 0), pad_word(serial, 1)] }
@@ -705,8 +840,8 @@ impl KeyT for Key24 {
     fn serial(&self) -> u32 {
         self.serial
     }
-    fn view(id: u32) -> View24 {
-        View24(id)
+    fn view(id: u32) -> Own<View24> {
+        Own(View24(id))
     }
     fn intact(&self) -> bool {
         live(self.serial, self.id) && self.pad == [pad_word(self.serial, 0), pad_word(self.serial, 1)]
